@@ -188,6 +188,8 @@ def from_sre(text, flags=0):
             if av is sc.AT_END_STRING:
                 return ('eos',)
             raise NotRegular('anchor %s' % av)
+        if op is sc.GROUPREF:
+            return ('sym', av)      # back-reference as an uninterpreted symbol (structure only, see compare())
         if op is sc.ASSERT:
             if av[0] != 1:
                 raise NotRegular('look-behind')
@@ -223,6 +225,7 @@ class XsdRef:
         self.xpath = xpath
         self.dotall = dotall
         self.blocks = blocks or {}
+        self.groups = 0
 
     def parse(self):
         r = self.regexp()
@@ -281,6 +284,8 @@ class XsdRef:
                     self.i += 2
                 else:
                     raise Invalid('(? extension')
+            else:
+                self.groups += 1
             r = self.regexp()
             if self.peek() != ')':
                 raise Invalid('unterminated group')
@@ -291,6 +296,18 @@ class XsdRef:
         if c == '.':
             self.i += 1
             return ('set', ANY if self.dotall else comp([(10, 10), (13, 13)]))
+        if c == '\\' and self.xpath and self.peek(1).isdigit():
+            # back-reference \N: the longest digit string N with 1 <= N <= number of groups opened so far (F&O 7.6.1)
+            j = self.i + 1
+            n = int(self.p[j])
+            if n < 1 or n > self.groups:
+                raise Invalid('back-reference to a missing group')
+            j += 1
+            while j < len(self.p) and self.p[j].isdigit() and n * 10 + int(self.p[j]) <= self.groups:
+                n = n * 10 + int(self.p[j])
+                j += 1
+            self.i = j
+            return ('sym', n)
         if c == '\\':
             return ('set', self.escape(in_class=False))
         if c in '?*+{':
@@ -449,6 +466,19 @@ def collect_sets(ir, acc):
         collect_sets(ir[1], acc)
 
 
+def collect_syms(ir):
+    t = ir[0]
+    if t == 'sym':
+        return [ir[1]]
+    if t in ('cat', 'alt'):
+        return [n for x in ir[1] for n in collect_syms(x)]
+    if t == 'rep':
+        return collect_syms(ir[3])
+    if t in ('look', 'nlook'):
+        return collect_syms(ir[1])
+    return []
+
+
 def minterms(sets):
     pts = {0, MAXU + 1}
     for rs in sets:
@@ -483,6 +513,7 @@ class Alphabet:
             self.index.setdefault(id(rs), i)
         if len(self.classes) > 0x2F000:
             raise NotRegular('too many minterm classes')
+        self.syms = sorted({n for ir in irs for n in collect_syms(ir)})
 
     def S(self, rs):
         i = self.index[id(rs)]
@@ -502,7 +533,11 @@ class Alphabet:
 
     def decode(self, zstr):
         raw = re.sub(r'\\u\{([0-9a-fA-F]+)\}', lambda m: chr(int(m.group(1), 16)), zstr)
-        return ''.join(chr(self.classes[ord(c) - BASE][1][0][0]) for c in raw)
+        out = []
+        for c in raw:
+            k = ord(c) - BASE
+            out.append(chr(self.classes[k][1][0][0]) if k < len(self.classes) else '\\%d' % self.syms[k - len(self.classes)])
+        return ''.join(out)
 
     def representative(self, k):
         return chr(self.classes[k][1][0][0])
@@ -535,6 +570,10 @@ def to_z3(ir, alpha):
         t = x[0]
         if t == 'set':
             return cat(alpha.S(x[1]), tail)
+        if t == 'sym':
+            # an uninterpreted extra letter: equal languages over the extended alphabet <=> the back-references sit at the
+            # same places with the same group numbers (the matching semantics of a back-reference is not modelled)
+            return cat(z3.Re(chr(BASE + len(alpha.classes) + alpha.syms.index(x[1]))), tail)
         if t == 'cat':
             r = tail
             for y in reversed(x[1]):
